@@ -35,6 +35,12 @@ def run(ctx):
     ctx.rule('C18.2', 'write order: header (final sizes) < blocks < thorough patch < footer arrays < hash patch')
     ctx.rule('C18.3', 'footer offsets are derived only for the stated number of arrays')
     check_short_reads(ctx, 'C18.1')
+    ctx.rule('C18.4', 'a short read raised inside a pool worker reaches the caller (futures consumed; no swallowing handler)')
+    from .. import iorules as IO
+    from .c17 import check_swallow
+    IO.check_futures(ctx, 'C18.4', P, G)
+    check_swallow(ctx, 'C18.4')
+    ctx.floor('C18.4', 4, 'thread-pool fan-outs in the loaders')
     write_order(ctx)
     stated_count(ctx)
 
